@@ -504,7 +504,64 @@ func c20CheckModule(c *config, r *rng, defs []c20Def, sample bool) {
 		// a permutation that keeps each textual kind in order must give identical text
 		_ = firstText
 	}
-	// permutation that keeps the relative order of globals/aliases/ifuncs/funcs: text must be byte-identical
+	// permutation that keeps the relative order of globals/aliases/ifuncs/funcs: text must be byte-identical.
+	// Half of the modules also get unnamed globals, aliases and functions that refer to each other by number
+	// (their numbers are their positions among the unnamed entities, which such a permutation keeps; the
+	// definitions of the other namespaces that move in between take no number)
+	if r.coin() {
+		defs = append([]c20Def{}, defs...)
+		nu := 0
+		var unnamedGlobals []int
+		for k := 2 + r.intn(5); k > 0; k-- {
+			switch {
+			case len(unnamedGlobals) == 0 || r.intn(3) == 0:
+				defs = append(defs, c20Def{"global", "", fmt.Sprintf("@%d = global i32 %d", nu, r.intn(100))})
+				unnamedGlobals = append(unnamedGlobals, nu)
+			case r.coin():
+				defs = append(defs, c20Def{"global", "", fmt.Sprintf("@%d = global i32* @%d", nu, unnamedGlobals[r.intn(len(unnamedGlobals))])})
+			case r.coin():
+				defs = append(defs, c20Def{"alias", "", fmt.Sprintf("@%d = alias i32, i32* @%d", nu, unnamedGlobals[r.intn(len(unnamedGlobals))])})
+			default:
+				defs = append(defs, c20Def{"func", "", fmt.Sprintf("define i32* @%d() {\n\tret i32* @%d\n}", nu, unnamedGlobals[r.intn(len(unnamedGlobals))])})
+			}
+			nu++
+		}
+		// the unnamed entities are spread among the named ones of the textual kinds, keeping their own order
+		var named, unnamed []c20Def
+		for _, d := range defs {
+			if d.name == "" {
+				unnamed = append(unnamed, d)
+			} else {
+				named = append(named, d)
+			}
+		}
+		defs = defs[:0]
+		for len(named) > 0 || len(unnamed) > 0 {
+			if len(unnamed) > 0 && (len(named) == 0 || r.intn(4) == 0) {
+				defs, unnamed = append(defs, unnamed[0]), unnamed[1:]
+			} else {
+				defs, named = append(defs, named[0]), named[1:]
+			}
+		}
+		id := make([]int, len(defs))
+		for i := range id {
+			id[i] = i
+		}
+		src := c20Render(defs, id)
+		oc, msg := guard(func() error {
+			m, err := asm.ParseString("c20.ll", src)
+			if err != nil {
+				return err
+			}
+			firstText = m.String()
+			return nil
+		})
+		o.Stat("modules_with_unnamed_entities")
+		if oc != ocOk {
+			o.Fail("module_permutation", "", "parse/print "+oc.String(), map[string]string{"src": src, "msg": msg})
+			return
+		}
+	}
 	var keep, free []int
 	for i, d := range defs {
 		switch d.cat {
